@@ -24,8 +24,8 @@ META = dict(
               "bounding, all pool histories up to a length bound) + TLC model with conformance replay",
     text="All schedules with <=2 (thorough 3) preemptions of every create/resize/dispatch/destroy history of length <=3 "
          "(thorough 4) over pools of 0-2 (3) workers and 0-3 tasks are executed on the unmodified engine_thread.cc; the "
-         "invocation log is checked after every dispatch (each task exactly once, thread ids in range, no invocation in "
-         "flight at return, none after return, stack restored) and deadlock / livelock are detected by the scheduler. "
+         "invocation log is checked after every dispatch (each task exactly once, thread ids in range and never shared by "
+         "two invocations in flight at the same time, no invocation in flight at return, none after return, stack restored) and deadlock / livelock are detected by the scheduler. "
          "A TLA+ model of the protocol is model-checked with TLC for larger bounds and its behaviours are replayed "
          "against the implementation.",
     note="Scheduler is sequentially consistent (weak memory orders are not modelled); scheduling points are placed "
